@@ -430,6 +430,7 @@ type World struct {
 	injectUsed  int
 	blackholed  bool
 	sendErrUsed bool
+	timerLeaks  []string
 	blackholeAt time.Duration
 	extra       map[string]any
 }
@@ -766,6 +767,44 @@ func (w *World) Drain(s *vrt.Sched) {
 		e.cancel()
 		if e.Conn != nil {
 			vrt.Go("drain-close-"+e.Name, func() { _ = e.Conn.Close() })
+		}
+	}
+}
+
+// AfterDrain runs inside the bubble once the drain time has passed (both ends
+// closed long ago): a resend ticker that still ticks was left running by
+// Close. A stale tick from before the Stop is discarded first; the wait is
+// longer than any resend timeout, boosted ones included.
+func (w *World) AfterDrain(s *vrt.Sched) {
+	if w.sc.NoDrainClose || !w.sc.Owns["leak"] {
+		return
+	}
+	type tc struct {
+		name string
+		c    <-chan time.Time
+	}
+	var cs []tc
+	for _, e := range []*Endpoint{w.C, w.S} {
+		if e.Conn == nil {
+			continue
+		}
+		if c := e.Conn.VerifResendTickerC(); c != nil {
+			select {
+			case <-c:
+			default:
+			}
+			cs = append(cs, tc{e.Name, c})
+		}
+	}
+	if len(cs) == 0 {
+		return
+	}
+	time.Sleep(40 * time.Second)
+	for _, x := range cs {
+		select {
+		case <-x.c:
+			w.timerLeaks = append(w.timerLeaks, "resendTicker/"+x.name)
+		default:
 		}
 	}
 }
